@@ -1,45 +1,55 @@
-"""Data-sheet operation names (contentindexparser.py `_process_data_sheet`, `_data_sheets_sort`)
-and the fields of the `Operation` row model (contentindexrowmodel.py)."""
+"""Data-sheet operation names (contentindexparser.py: the dispatch on `row.operation.type`, the order
+word of the sort) and the fields of the `Operation` row model (contentindexrowmodel.py).
+
+HOW IT READS (DESIGN §2.5a)
+* operation names, single-source operations, order word: SOURCE STRUCTURE located BY CONTENT — every
+  method of `ContentIndexParser` is searched for a dispatch on `….operation.type` (if/elif chain on
+  `==`, `match`, dispatch dict; a local assigned from it counts), for `….operation.type in <list>`
+  (literal or hoisted constant) and for a comparison of something built from `.order` with a string
+  constant.  No private method name is looked up.  All three are SETS (distinct constants of an
+  equality dispatch): emitted SORTED, compared up to order.
+* `Operation` fields: RUNTIME (pydantic field list).  ORDER EXACT — an operation written in one cell
+  is read positionally.
+"""
 import ast
 
-from ..extract_tables import _find_class, _find_func, _parse, lean_str, lean_str_list
+from .. import t1lib
+from ..extract_tables import _find_class, _parse, lean_str_list
 
 
 def _is_op_type(node) -> bool:
-    # row.operation.type
-    return (
-        isinstance(node, ast.Attribute) and node.attr == "type"
-        and isinstance(node.value, ast.Attribute) and node.value.attr == "operation"
-    )
+    return t1lib.ends_with(node, "operation", "type")
+
+
+def _mentions_order(node) -> bool:
+    return any(isinstance(n, ast.Attribute) and n.attr == "order" for n in ast.walk(node))
 
 
 def tables() -> str:
-    mod = _parse("parsers/creation/contentindexparser.py")
-    cls = _find_class(mod, "ContentIndexParser")
-    fn = _find_func(cls, "_process_data_sheet")
-    eq_names, in_names = [], []
-    for n in ast.walk(fn):
-        if isinstance(n, ast.Compare) and _is_op_type(n.left) and len(n.ops) == 1:
-            if isinstance(n.ops[0], ast.Eq):
-                eq_names.append((n.lineno, ast.literal_eval(n.comparators[0])))
-            elif isinstance(n.ops[0], ast.In):
-                in_names += list(ast.literal_eval(n.comparators[0]))
-    eq_names = [v for _, v in sorted(eq_names)]
-    # string constants compared (==) with something that is lower()-ed inside _data_sheets_sort
-    fs = _find_func(cls, "_data_sheets_sort")
-    desc = []
-    for n in ast.walk(fs):
-        if isinstance(n, ast.Compare) and len(n.ops) == 1 and isinstance(n.ops[0], (ast.Eq, ast.NotEq)):
-            for side in [n.left] + n.comparators:
-                if isinstance(side, ast.Constant) and isinstance(side.value, str):
-                    desc.append(side.value)
-    desc = sorted(set(desc))
-    rm = _parse("parsers/creation/contentindexrowmodel.py")
-    op = _find_class(rm, "Operation")
-    fields = [s.target.id for s in op.body if isinstance(s, ast.AnnAssign)]
+    cls = _find_class(_parse("parsers/creation/contentindexparser.py"), "ContentIndexParser")
+    live = t1lib.load("rpft.parsers.creation.contentindexparser")
+    resolve = t1lib.Resolver(live.ContentIndexParser, live)
+    eq_names = sorted(t1lib.dispatch_keys(cls, _is_op_type, resolve))
+    assert eq_names, "no dispatch on operation.type found"
+    in_names = sorted({w for c in t1lib.container_consts(cls, _is_op_type, resolve, ops=(ast.In,)) for w in c})
+    # string constants compared (== / !=) with something computed from `.order`
+    desc = set()
+    for n in t1lib.find_all(cls, lambda n: isinstance(n, ast.Compare) and len(n.ops) == 1 and isinstance(n.ops[0], (ast.Eq, ast.NotEq))):
+        sides = [n.left, n.comparators[0]]
+        for a, b in (sides, sides[::-1]):
+            if _mentions_order(a):
+                try:
+                    v = resolve(b)
+                except KeyError:
+                    continue
+                if isinstance(v, str):
+                    desc.add(v)
+    fields = list(t1lib.load("rpft.parsers.creation.contentindexrowmodel").Operation.__fields__)
     return (
+        "-- sets (equality dispatch on distinct constants): sorted\n"
         f"def dataOpTypeNames : List (List Char) := {lean_str_list(eq_names)}\n"
         f"def dataOpSingleSource : List (List Char) := {lean_str_list(in_names)}\n"
-        f"def dataOpOrderWords : List (List Char) := {lean_str_list(desc)}\n"
+        f"def dataOpOrderWords : List (List Char) := {lean_str_list(sorted(desc))}\n"
+        "-- field order of the Operation model: exact (positional cells)\n"
         f"def dataOpFields : List (List Char) := {lean_str_list(fields)}\n"
     )
